@@ -34,6 +34,7 @@ struct World {
   std::map<int, FakeTRS*> srcOf;                 // model source name -> source object (sources created by ConnectNew)
   std::map<const FakeTRS*, std::pair<int, int>> nameOf;   // source object -> (model source name, next base-set index)
   bool labelled{ false };                        // every base set carries its origin token as term text
+  std::map<PictID, std::vector<PictID>> parentsAt;   // the parents every operation pictogram was inserted with (no call ever changes them)
   std::map<PictID, FakeTRS*> known;              // the source a pictogram's handle names (also while that source is closed)
   void Refresh() { for (const auto& pict : *oss) { const auto* h = oss->Src()(pict.uid); if (h == nullptr || h->empty()) known.erase(pict.uid); else if (h->src != nullptr) known[pict.uid] = &Mgr().DummyCast(*h->src); }
     for (auto it = known.begin(); it != known.end();) if (!oss->Contains(it->first)) it = known.erase(it); else ++it; }
@@ -89,6 +90,16 @@ static std::string Structure(const OSSchema& o) {
   while (progress) { progress = false; for (auto it = left.begin(); it != left.end();) { bool ready = true; for (const auto q : o.Graph().ParentsOf(*it)) if (left.count(q)) ready = false;
       if (ready) { it = left.erase(it); progress = true; } else ++it; } }
   if (!left.empty()) return "parent relation has a cycle";
+  return "";
+}
+// the parent relation of an operation is fixed at its insertion: no later call (erasing another pictogram, loading the saved
+// document, ...) may change which pictograms it is computed from, or their order
+static std::string ParentsKept(World& w) {
+  for (const auto& pict : *w.oss) if (w.oss->Ops()(pict.uid) != nullptr) {
+    const auto it = w.parentsAt.find(pict.uid);
+    if (it != w.parentsAt.end() && w.oss->Graph().ParentsOf(pict.uid) != it->second) return "parents of operation " + std::to_string(pict.uid) + " changed";
+  }
+  for (auto it = w.parentsAt.begin(); it != w.parentsAt.end();) if (!w.oss->Contains(it->first)) it = w.parentsAt.erase(it); else ++it;
   return "";
 }
 static json ViewOf(World& w) {
@@ -167,7 +178,8 @@ static void Apply(World& w, const json& c, const json& wit, size_t step, vh::Rep
   auto& ossRef = *w.oss;
   g_uids.clear();
   if (o == "InsertBase") { g_uids.push_back(c["new"].get<EntityUID>()); const auto* pict = ossRef.InsertBase(); if (pict == nullptr || pict->uid != c["new"].get<PictID>()) r.Drift("C19", "InsertBase gave another identifier", wit, { {"step", step} }); }
-  else if (o == "InsertOperation") { g_uids.push_back(c["new"].get<EntityUID>()); (void)ossRef.InsertOperation(c["a"].get<PictID>(), c["b"].get<PictID>()); }
+  else if (o == "InsertOperation") { g_uids.push_back(c["new"].get<EntityUID>()); const auto* pict = ossRef.InsertOperation(c["a"].get<PictID>(), c["b"].get<PictID>());
+    if (pict != nullptr) w.parentsAt[pict->uid] = { c["a"].get<PictID>(), c["b"].get<PictID>() }; }
   else if (o == "Erase") {
     const bool leaf = ossRef.Contains(p) && ossRef.Graph().ChildrenOf(p).empty(); const auto sizeBefore = ossRef.size();
     const bool res = ossRef.Erase(p);
@@ -256,6 +268,7 @@ static void Handle(const json& c, vh::Report& r) {
     ++step; Apply(w, op, wit, step, r, true);
     ++r.checks;
     if (const auto inv = Structure(*w.oss); !inv.empty()) { r.Violation("C19", "structure: " + inv, wit, { {"step", step} }); return; }
+    if (const auto inv = ParentsKept(w); !inv.empty()) { r.Violation("C19", "structure: " + inv, wit, { {"step", step} }); return; }
   }
   // ---- the state the model predicts (conformance), then freshness once every pending change has been announced
   bool fresh = false;
